@@ -32,8 +32,10 @@ EXPLANATION = (
     "for targets present in every month/year. TimePoint.__add__ with a truncated operand: "
     "fields are matched in t's own offset when it has one (else p's), result in p's "
     "offset; either operand order gives the same result and applying t again is the "
-    "identity (ghost program). BOUNDED: termination for targets that do not exist in "
-    "every period (day 29-31, day 366, week 53), week+weekday and combined time+day "
+    "identity (ghost program). Targets that do not exist in every period (day 29-31, "
+    "day 366): PARTIAL correctness proved with the same invariants (valid result, fields as "
+    "asked, earliest) - cases *:dom-late, *:doy-late, variants not generated. BOUNDED: "
+    "termination for those targets, week 53, week+weekday and combined time+day "
     "designators: native runs with a time limit.")
 ASSUMPTIONS = [
     "termination for sometimes-absent targets is not a generated obligation (bounded)",
@@ -61,7 +63,8 @@ def bounded(tier, seed, repo):
     fails, n = [], 0
     signal.signal(signal.SIGALRM, _alarm)
     starts = [(2003, 1, 31, 12, 0, 0), (2004, 2, 28, 23, 59, 59), (1999, 12, 31, 0, 0, 1),
-              (2020, 12, 28, 6, 30, 0), (-1, 3, 1, 0, 0, 0)]
+              (2020, 12, 28, 6, 30, 0), (-1, 3, 1, 0, 0, 0), (2019, 2, 10, 7, 45, 20),
+              (1900, 2, 1, 0, 0, 0), (2024, 1, 30, 18, 0, 0), (2023, 1, 30, 18, 0, 0)]
     for mode in ALL_MODES:
         data.CALENDAR.set_mode(mode)
         cal.set_mode(mode)
@@ -76,7 +79,10 @@ def bounded(tier, seed, repo):
         targets.append(("dom+time", {"day_of_month": 15, "hour_of_day": 6}))
         targets.append(("dow+time", {"day_of_week": 1, "minute_of_hour": 30}))
         for (kind, kw) in targets:
+            hung = False
             for (y, m, d, hh, mi, ss) in starts:
+                if hung:
+                    break           # one non-terminating start per target is enough
                 if d > cal.dim(y, m):
                     d = cal.dim(y, m)
                 n += 1
@@ -87,6 +93,13 @@ def bounded(tier, seed, repo):
                 try:
                     r = t + p
                     ok = r >= p and all(getattr(r, k) == v for k, v in kw.items())
+                    # a real day of a real month / year / week, in r's own representation
+                    if r.get_is_calendar_date():
+                        ok = ok and cal.valid_cal(r._year, r._month_of_year, r._day_of_month)
+                    elif r.get_is_ordinal_date():
+                        ok = ok and cal.valid_ord(r._year, r._day_of_year)
+                    else:
+                        ok = ok and cal.valid_week(r._year, r._week_of_year, r._day_of_week)
                     r2 = t + r
                     ok = ok and r2 == r and (p + t) == r
                     # minimality against the spec: no earlier matching day
@@ -102,6 +115,7 @@ def bounded(tier, seed, repo):
                                       "input": {"mode": mode, "t": kw, "p": str(p)},
                                       "observed": str(r)})
                 except _Hang:
+                    hung = True
                     if len([f for f in fails if f["id"].startswith("hang-" + mode + kind)]) < 1:
                         fails.append({"id": "hang-%s%s-%s" % (mode, kind, sorted(kw.items())),
                                       "input": {"mode": mode, "t": kw, "p": str(p)},
@@ -112,5 +126,5 @@ def bounded(tier, seed, repo):
     cal.set_mode("gregorian")
     return [{"name": "add_truncated.sometimes-absent-and-combined", "kind": "grid",
              "bound": "4 modes x day 28..31 / last day of common and leap year / week 52, 53 / "
-                      "two combined time+day designators x 5 start points; 10 s limit",
+                      "two combined time+day designators x 9 start points (month ends, leap and common Februaries); 10 s limit",
              "evaluations": n, "exhaustive": False, "failures": fails}]
